@@ -189,6 +189,8 @@ Expected(s, e) ==
          [] n.kind = "echo"  -> [w |-> i \in s.due /\ s.fbq[i] # <<>>, v |-> IF s.fbq[i] # <<>> THEN s.fbq[i][1][2] ELSE 0, s |-> s.nst[i]]
          [] n.kind = "delay" -> [w |-> i \in s.due, v |-> s.nst[i],
                                  s |-> IF s.lw[n.ins[1]] = e.t THEN iv[1] ELSE s.nst[i]]
+         [] n.kind = "tdelay" -> [w |-> i \in s.due /\ s.nst[i] >= 0, v |-> s.nst[i],
+                                  s |-> IF s.lw[n.ins[1]] = e.t THEN iv[1] ELSE s.nst[i]]
          [] OTHER            -> F(n, iv, iok, s.nst[i])
 
 InputsTruthful(s, e) ==
@@ -232,8 +234,8 @@ OnFn(e) ==
                                       IN [S EXCEPT !.fbq[i] = q2]
                                  ELSE S
                         s1 == [s0 EXCEPT !.fired = @ \cup {i}, !.nst[i] = x.s,
-                                        !.threw = IF threw THEN @ \cup {<<i, e.in[1].v>>} ELSE @,
-                                        !.tagt[i] = IF n.kind = "delay" /\ i \in S.due /\ @ = t THEN 0 ELSE @]
+                                        !.threw = IF threw THEN @ \cup {<<i, IF n.kind = "tdelay" THEN S.nst[i] ELSE e.in[1].v>>} ELSE @,
+                                        !.tagt[i] = IF n.kind \in {"delay", "tdelay"} /\ i \in S.due /\ @ = t THEN 0 ELSE @]
                         s2 == IF x.w THEN [s1 EXCEPT !.lw[i] = t, !.lv[i] = x.v,
                                                      !.pend = @ \cup {<<f, t + 1>> : f \in FbReaders(i)},
                                                      !.fbq = [f \in DOMAIN @ |-> IF f \in FbReaders(i)
